@@ -315,7 +315,10 @@ class RZILTransformer(Transformer):
             self.ext.hex_reg(
                 [
                     Token("REG_TYPE", name[0]),
-                    Token("SRC_DEST_REG", str(name[1:])),
+                    Token(
+                        "SRC_DEST_REG_PAIR" if ":" in name else "SRC_DEST_REG",
+                        str(name[1:]),
+                    ),
                     name,
                 ],
                 is_new=new,
